@@ -101,6 +101,7 @@ type pending struct {
 	pred       func() bool
 	result     int     // opResume: the select case that was executed as partner
 	obj        uintptr // opYield: identity of the object operated on (atomics, close)
+	readOnly   bool    // opYield: the operation only reads obj
 }
 
 const (
@@ -130,17 +131,19 @@ const (
 )
 
 type thread struct {
-	id     int
-	name   string
-	role   int
-	gate   chan cmd
-	state  int
-	pend   pending
-	doExec []func() // per-case real operations of the pending select (partner execution)
-	hash   uint64
-	nspawn int
-	panicV interface{}
-	panicS string
+	id       int
+	name     string
+	role     int
+	gate     chan cmd
+	state    int
+	pend     pending
+	doExec   []func() // per-case real operations of the pending select (partner execution)
+	hash     uint64
+	nspawn   int
+	opSeq    int32
+	commHeld int
+	panicV   interface{}
+	panicS   string
 }
 
 // ThreadInfo describes a thread at the end of an execution.
@@ -210,6 +213,20 @@ type Exec struct {
 	wg       sync.WaitGroup
 	aborting bool
 	stepLim  bool
+	traceOn  bool
+	trace    []string
+
+	// partial-order reduction (sleep sets), see por.go
+	por            bool
+	sleep          []transID
+	sleepInit      []transID
+	pinfo          []pointInfo
+	sleepBlk       bool
+	noAtomicPoints bool
+
+	// earlyStop: the state cache recognised the current state; the rest of this execution (and its
+	// final state) was already explored and checked from here by an earlier execution.
+	earlyStop bool
 
 	User interface{} // harness state
 	Cfg  map[string]string
@@ -425,7 +442,12 @@ func (e *Exec) hasPartnerAmong(t *thread, earlier []*thread) bool {
 // choices
 
 //go:norace
-func (e *Exec) pick(n, k int, kind uint8) int {
+func (e *Exec) pick(n, k int, kind uint8) int { return e.pickS(n, k, kind, nil, nil) }
+
+// pickS decides one choice point.  ids/asleep are given for scheduling points in sleep-set mode.
+//
+//go:norace
+func (e *Exec) pickS(n, k int, kind uint8, ids []transID, asleep []bool) int {
 	if n <= 1 {
 		return 0
 	}
@@ -436,12 +458,34 @@ func (e *Exec) pick(n, k int, kind uint8) int {
 		if int(c) >= n {
 			engineFail("replay divergence at point %d: choice %d of %d options", idx, c, n)
 		}
-	} else if e.cacheFn != nil && e.cacheCut < 0 && kind == ptSched {
-		if e.cacheFn(e, idx) {
-			e.cacheCut = idx
+	} else {
+		if asleep != nil {
+			for int(c) < n-1 && asleep[c] {
+				c++
+			}
+		}
+		if e.cacheFn != nil && e.cacheCut < 0 && kind == ptSched {
+			if e.cacheFn(e, idx) {
+				e.cacheCut = idx
+				e.earlyStop = true
+			}
 		}
 	}
 	e.points = append(e.points, point{n: int32(n), k: int32(k), chosen: c, kind: kind})
+	if e.por {
+		var pi pointInfo
+		if idx >= len(e.prefix) {
+			pi.opts, pi.asleep = ids, asleep
+			pi.sleepAt = append([]transID(nil), e.sleep...)
+		}
+		e.pinfo = append(e.pinfo, pi)
+		if idx == len(e.prefix)-1 {
+			// the branching point of this run: from here on the sleep set handed down by the
+			// explorer is in effect (for a scheduling point it is filtered by the caller against
+			// the transition taken)
+			e.sleep = append([]transID(nil), e.sleepInit...)
+		}
+	}
 	return int(c)
 }
 
@@ -470,8 +514,29 @@ func (e *Exec) schedule(t *thread) int {
 			}
 			return e.quiesce(t)
 		}
-		c := e.pick(len(trs), k, ptSched)
+		var ids []transID
+		var asleep []bool
+		if e.por {
+			var any bool
+			ids, asleep, any = e.awakeOf(trs)
+			if !any && len(e.points) >= len(e.prefix) {
+				// every enabled transition is asleep: this execution is redundant
+				e.sleepBlk = true
+				e.earlyStop = true
+				return e.quiesce(t)
+			}
+		}
+		c := e.pickS(len(trs), k, ptSched, ids, asleep)
+		if e.earlyStop {
+			return e.quiesce(t)
+		}
 		tr := trs[c]
+		if e.por && len(e.sleep) > 0 {
+			e.sleep = e.sleepAfter(e.sleep, ids[c])
+		}
+		if e.traceOn {
+			e.traceStep(tr, c, len(trs))
+		}
 		if tr.partner != nil {
 			// the partner executes its side for real and then waits to be resumed
 			u := tr.partner
@@ -604,7 +669,7 @@ func (e *Exec) advanceClock() bool {
 		}
 	}
 	for _, t := range e.threads {
-		if t.state == stParked && t.pend.kind == opSleep {
+		if (t.state == stParked || (t == e.running && t.state == stRunning)) && t.pend.kind == opSleep {
 			if min < 0 || t.pend.deadline < min {
 				min = t.pend.deadline
 			}
@@ -737,7 +802,11 @@ func block(p pending) int {
 	if e.aborting {
 		panic(abortSentinel)
 	}
+	if t.commHeld > 0 {
+		engineFail("scheduling point (%s %s) inside a critical section of a mutex declared commutative", opName(p.kind), p.site)
+	}
 	t.pend = p
+	t.opSeq++
 	idx := e.schedule(t)
 	if e.aborting {
 		panic(abortSentinel)
@@ -926,15 +995,12 @@ func Close[T any](site string, ch chan<- T) {
 	e := cur
 	if !e.aborting {
 		// closing is a visible operation: give the scheduler a point before it
-		block(pending{kind: opYield, site: site})
+		block(pending{kind: opYield, site: site, obj: chanPtr(reflect.ValueOf(ch))})
 	}
 	cv := reflect.ValueOf(ch)
 	p := chanPtr(cv)
 	if p != 0 && !e.isClosed(p) {
 		e.closed = append(e.closed, closedEnt{ptr: p, pin: ch})
-		if e.cacheFn != nil && e.running != nil {
-			e.running.hash = mix(e.running.hash, e.objVersion(p, e.running))
-		}
 	}
 	close(ch) // panics exactly as the real program would on double close / nil
 }
@@ -1057,4 +1123,18 @@ func realSelect(hasDefault bool, cases []SelCase) int {
 	}
 	cases[i].setRecv(v, ok)
 	return i
+}
+
+//go:norace
+func (e *Exec) traceStep(tr transition, c, n int) {
+	p := &tr.t.pend
+	site := p.site
+	if site == "" {
+		site = pcSite(p.pc)
+	}
+	s := fmt.Sprintf("t=%v [%d/%d] %s: %s case=%d @%s", time.Duration(e.clock-epoch), c, n, tr.t.name, opName(p.kind), tr.caseIdx, site)
+	if tr.partner != nil {
+		s += fmt.Sprintf(" <-> %s case=%d", tr.partner.name, tr.pIdx)
+	}
+	e.trace = append(e.trace, s)
 }
